@@ -91,7 +91,7 @@ func rocDstCase(t *vlib.T, id []int, lab int, ws wspec) {
 		}
 		// reuse the same (now dirty) storage for another input, then the first again
 		for rep, in := range [][]float64{y2, y} {
-			cut = backing[2:2 : 2+c]
+			cut = backing[2 : 2 : 2+c]
 			msg, pan = catch(func() { a, b, th = stat.ROC(cut, in, classes, w) })
 			what := fmt.Sprintf("ROC(empty cutoffs cap=%d, reused %d)", c, rep+1)
 			if pan {
